@@ -334,4 +334,87 @@ mod vk_iter {
             j += 1;
         }
     }
+
+    // C08 / C15 for an OWNING wrapped iterator (elements live in the wrapped iterator, in the Vec collected by a one-shot chunk
+    // pull and in the reused Option<T> buffer of a buffered iterator): two pulls with partial consumption, then drop of
+    // everything / into_seq_iter; every element is delivered or destroyed exactly once.  Real atomics, sequential.
+    fn chk_iter_ledger(len: usize, delivered: &[bool; 4]) {
+        let d = drops();
+        let mut k = 0;
+        while k < 4 {
+            if k < len {
+                if delivered[k] { assert!(d[k] == 0, "[C08 iter-ledger-delivered] a delivered element is not also dropped by the machinery (never both)"); }
+                else {
+                    assert!(d[k] >= 1, "[C08 C15 iter-ledger-neither] an undelivered element is destroyed (never neither)");
+                    assert!(d[k] <= 1, "[C08 iter-ledger-twice] an undelivered element is destroyed only once (never twice)");
+                }
+            }
+            k += 1;
+        }
+    }
+
+    // @harness name=iter_ledger_buffered props=C08,C15,C01,C03 kind=bounded bound="owning source of length <= 4; buffered chunk size 2; two pulls, first chunk consumed 0..=2 items, second 0..=2; then drop or into_seq_iter"
+    #[kani::proof]
+    #[kani::unwind(7)]
+    fn iter_ledger_buffered() {
+        let len: usize = kani::any();
+        kani::assume(len <= 4);
+        let mut v = Vec::new();
+        let mut i = 0;
+        while i < len { v.push(D(i)); i += 1; }
+        let it = ConIterOfIter::new(v.into_iter());
+        let mut delivered = [false; 4];
+        {
+            let mut buf = it.buffered_iter(2);
+            let mut round = 0;
+            while round < 2 {
+                let take: usize = kani::any();
+                kani::assume(take <= 2);
+                if let Some(mut ch) = buf.next() {
+                    let b = ch.begin_idx;
+                    let l = ch.values.len();
+                    assert!(l >= 1 && l <= 2 && b == 2 * round, "[C03 C01 iter-ledger-chunk] buffered chunks are consecutive runs of the source");
+                    let mut k = 0;
+                    while k < 2 { if k < take && k < l { let x = ch.values.next().unwrap(); assert!(x.0 == b + k, "[C01 C02 iter-ledger-contents] chunk elements are the source elements at begin + k"); delivered[b + k] = true; std::mem::forget(x); } k += 1; }
+                    if take >= l { assert!(ch.values.next().is_none(), "[C03 iter-ledger-exact] the chunk yields exactly the announced number of elements (no stale element of the previous chunk)"); }
+                    kani::cover!(round == 1 && take == 0 && l == 1, "short second chunk over a stale slot");
+                }
+                round += 1;
+            }
+        }
+        let fin: bool = kani::any();
+        if fin { drop(it); } else { let s = it.into_seq_iter(); drop(s); }
+        chk_iter_ledger(len, &delivered);
+    }
+
+    // @harness name=iter_ledger_chunk props=C08,C15 kind=bounded bound="owning source of length <= 3; one single pull and one one-shot chunk of size 2, chunk consumed 0..=2 items; then drop or into_seq_iter"
+    #[kani::proof]
+    #[kani::unwind(6)]
+    fn iter_ledger_chunk() {
+        let len: usize = kani::any();
+        kani::assume(len <= 3);
+        let mut v = Vec::new();
+        let mut i = 0;
+        while i < len { v.push(D(i)); i += 1; }
+        let it = ConIterOfIter::new(v.into_iter());
+        let mut delivered = [false; 4];
+        let first: bool = kani::any();
+        let mut base = 0;
+        if first { if let Some(x) = it.next_id_and_value() { assert!(x.idx == 0 && x.value.0 == 0, "[C01 C02 iter-ledger-contents] a single pull delivers the next source element"); delivered[0] = true; std::mem::forget(x.value); } base = 1; }
+        let take: usize = kani::any();
+        kani::assume(take <= 2);
+        {
+            if let Some(mut ch) = it.next_chunk(2) {
+                let b = ch.begin_idx;
+                assert!(b == base, "[C02 C03 iter-ledger-chunk] the chunk begins at the next position");
+                let l = ch.values.len();
+                let mut k = 0;
+                while k < 2 { if k < take && k < l { let x = ch.values.next().unwrap(); assert!(x.0 == b + k, "[C01 C02 iter-ledger-contents] chunk elements are the source elements at begin + k"); delivered[b + k] = true; std::mem::forget(x); } k += 1; }
+                kani::cover!(l == 2 && take == 1, "chunk partly consumed");
+            };
+        }
+        let fin: bool = kani::any();
+        if fin { drop(it); } else { let s = it.into_seq_iter(); drop(s); }
+        chk_iter_ledger(len, &delivered);
+    }
 }
